@@ -433,18 +433,18 @@ def extNode : XExt → Node
   | .authKeyId b => extNodeKnown false OID_AUTH_KEY_ID [seq [.prim 0x80 b]]
   | .future b => .raw b
 
-def enumOid' (v : Nat) (oid : List Nat) : Option (List Nat) := if v = 1 then some oid else none
+def enumOidO (v : Nat) (oid : List Nat) : Option (List Nat) := if v = 1 then some oid else none
 
 /-- the tree of writer operations `encode` performs for a readable certificate (`none`: the conversion
 fails or panics: undefined algorithm value, integer value under a non-Matter attribute, date beyond 9999) -/
 def certNode (f : Fields) : Option Node := do
-  let sigOid ← enumOid' f.signAlgo OID_ECDSA_WITH_SHA256
+  let sigOid ← enumOidO f.signAlgo OID_ECDSA_WITH_SHA256
   let issuer ← dnNode f.issuer
   let nb ← timeNode f.notBefore
   let na ← timeNode (if f.notAfter = 0 then DOESNT_EXPIRE else f.notAfter)
   let subject ← dnNode f.subject
-  let pkOid ← enumOid' f.pubkeyAlgo OID_PUB_KEY_ECPUBKEY
-  let curveOid ← enumOid' f.ecCurveId OID_EC_TYPE_PRIME256V1
+  let pkOid ← enumOidO f.pubkeyAlgo OID_PUB_KEY_ECPUBKEY
+  let curveOid ← enumOidO f.ecCurveId OID_EC_TYPE_PRIME256V1
   pure (seq [
     .cons 0xA0 [.prim 0x02 [2]],
     .prim 0x02 f.serial,
